@@ -570,7 +570,7 @@ Lemma prep_drv_spec now nid rcv st dr : frag_step2 rcv st -> Mid now dr -> fresh
   acts now dr (prep_drv now nid st dr) /\ forall x, ents_at x (pending (prep_drv now nid st dr)) = ents_at x (pending dr).
 Proof.
   intros Hst Hm Hf. pose proof (mid_sorted _ _ Hm) as Hs.
-  destruct st as [d|t|d v|biased a b| | | |polled d1 d2|d| | | | | |rearm d0 d2 x d3]; try contradiction; cbn [frag_step2 frag_step] in Hst; cbn [prep_drv]; try (split; [apply acts_refl|reflexivity]).
+  destruct st as [d|t|d v|biased a b| | | |polled d1 d2|d| | | | | |rearm d0 d2 x d3| ]; try contradiction; cbn [frag_step2 frag_step] in Hst; cbn [prep_drv]; try (split; [apply acts_refl|reflexivity]).
   - destruct v as [x|]; [|contradiction].
     destruct ((now <? now + x) && negb (now <? dl now d)) eqn:E; [|split; [apply acts_refl|reflexivity]].
     split.
@@ -835,7 +835,7 @@ Proof.
        (let '(o, b, n, d', ml) := frag_run now nid' m k iv r dr' mail in (pre ++ o, b, n, d', ml))).
   { intros nid' dr' pre Hn Ha Hm' He Hlog Htime Hiv Harr Hown.
     apply (Hpass nid' dr' pre iv mail arr []); try assumption; [intros id H; right; exact H|apply mail_ok_refl]. }
-  destruct st as [d|t|d v|biased a b|p bh| | |polled d1 d2|d| |ch d|ch|d ch|rf ch d|rearm d0 d2 x d3];
+  destruct st as [d|t|d v|biased a b|p bh| | |polled d1 d2|d| |ch d|ch|d ch|rf ch d|rearm d0 d2 x d3|wf d];
     cbn [frag_step2 frag_step] in Hst; try contradiction; cbn [frag_run].
   - (* sleep *)
     cbn [dl_of]. destruct (now <? now + d) eqn:E.
